@@ -49,6 +49,14 @@ def run_X1(chk):
     chk.verdict("X1", (f, loop), f"loop invariant len({Vn}) == {j} + 1", True if ok else False,
                 "expand_krylov_space: the loop no longer starts at len(V)-1 with exactly one V.append per completed iteration: the index j "
                 "and the size of the basis go out of step")
+    # the dimension requested by the caller bounds the loop unmodified: the only other reason to stop is breakdown (size of the stored
+    # blocks of the start vector says nothing about the dimension of the reachable sector)
+    ncvp = f.params[3]
+    upper = loop.iter.args[1] if isinstance(loop.iter, ast.Call) and len(loop.iter.args) == 2 else None
+    rebound = [n for n in ast.walk(fn) if isinstance(n, ast.Name) and n.id == ncvp and isinstance(n.ctx, ast.Store)]
+    chk.verdict("X1", (f, loop), f"loop runs up to the caller's `{ncvp}`", True if (upper is not None and A.text(upper) == ncvp and not rebound) else False,
+                f"expand_krylov_space: the upper bound of the Krylov loop is not the caller's `{ncvp}` as given (it is rebound or replaced): the space is "
+                f"cut short for reasons other than breakdown and eigs/lin_solver stop being exact when ncv covers the reachable sector")
     # w = f(V[-1])
     wdef = [n for n in loop.body if isinstance(n, ast.Assign) and isinstance(n.value, ast.Call) and A.text(n.value.func) == f.params[1]]
     chk.require(wdef, "expand_krylov_space: application of f not found")
